@@ -16,11 +16,46 @@ ASSUMPTIONS = [
 ]
 
 PLAN = {
+    'C01': {
+        'engines': ['kani', 'verus_lemmas', 'syntactic'],
+        'technique': 'Kani function contracts (K-refine) on the real Observer/FunctionWrapper/StreamController methods from every enumerated slot state + Verus induction over all call histories + encapsulation frame obligations',
+        'level_text': 'every call on the subscriber\'s Observer (the only path to the user callbacks: private slots, subscribe() builds exactly one Observer) is proved to follow the contract table from each of the 16 slot states with symbolic payloads (loop-free harnesses = complete proofs per state); Verus proves by induction that every finite call sequence - any pipeline, any ill-formed source - yields next* (error|complete)? with nothing after the terminal',
+        'level_note': 'sequential semantics (lock facade); re-entrancy depth 1; StreamController obligations bounded to <=2 upstreams; threads (C19) not covered',
+        'design_ref': 'DESIGN.md 4.1',
+    },
     'C02': {
         'engines': ['verus_units'],
         'technique': 'Verus postconditions (operator definition as spec function + representation invariant) on handler bodies extracted from /repo each run',
         'level_text': 'for every operator unit: each handler, started from any state satisfying the representation invariant for any item history, re-establishes it and leaves the downstream trace equal to the ReactiveX definition applied to the extended history - all items, all counts, all lengths (induction over the history is the invariant); not a test of sampled inputs',
         'level_note': 'StreamController is represented by its contract (models/prelude.rs); user closures by an uninterpreted total function; Item=i64; locks dropped (sequential)',
         'design_ref': 'DESIGN.md 4.2',
+    },
+    'C05': {
+        'engines': ['kani', 'verus_lemmas', 'syntactic'],
+        'technique': 'Kani contracts on Observer::unsubscribe / Subscription / inner_subscribe / Using::drop + Verus timeline lemma + slot-monotonicity frame obligation',
+        'level_text': 'unsubscribe leaves all four slots empty from every slot state and runs the teardown exactly once; idempotence, is_subscribed timeline and "nothing after unsubscribe" are proved for all call histories by induction; the cross-thread clause is derived from slot monotonicity under the lock-atomicity assumption, no schedule is explored',
+        'level_note': 'sequential; A1 lock atomicity assumed for the cross-thread clause',
+        'design_ref': 'DESIGN.md 4.5',
+    },
+    'C06': {
+        'engines': ['kani', 'verus_units', 'syntactic'],
+        'technique': 'Kani contracts on every ending path of the real StreamController (all registered upstream observers unsubscribed) + Verus contracts on early-stopping handlers and producer loops extracted from /repo',
+        'level_text': 'each ending path (sink_error, last sink_complete, sink_complete_force, finalize, downstream unsubscribe, re-entrant unsubscribe) is proved to leave every registered upstream observer unsubscribed and the map empty; producer loops are proved to re-check is_subscribed before every emission',
+        'level_note': 'bounded in the number of registered upstream observers (<=2); interval/timer threads are C15/C16 (not applicable)',
+        'design_ref': 'DESIGN.md 4.6',
+    },
+    'C14': {
+        'engines': ['syntactic', 'verus_units'],
+        'technique': 'allocation-site frame obligation decided on the token tree for every operator (state mutated by handlers is created inside the create-closure) + Verus init obligations',
+        'level_text': 'for all operators: no operator value holds shared mutable state and no state cell is created outside the per-subscription closure, so every subscribe() starts the proved machine from its initial state; tap is additionally proved to invoke its callbacks through per-subscription clones',
+        'level_note': 'syntactic frame condition, sound for the recognised skeleton (unknown shapes are undecided, not passed); connectables are C13',
+        'design_ref': 'DESIGN.md 4.14',
+    },
+    'C17': {
+        'engines': ['kani', 'verus_lemmas', 'syntactic'],
+        'technique': 'Kani post-state contracts "no closure retained" on every ending path of the real StreamController and Observer',
+        'level_text': 'after each ending path the subscriber\'s four slots (including the teardown closure that owns the controller), the upstream map and on_finalize are proved empty: the only owning edges that can form a cycle are cut',
+        'level_note': 'bounded to <=2 upstreams; acyclicity of the remaining ownership edges is an argument in DESIGN 4.17, not mechanised',
+        'design_ref': 'DESIGN.md 4.17',
     },
 }
